@@ -103,3 +103,12 @@ fn item_data_to_uuid<W: Warn<Warning>>(warn: &mut W, data: &[i32]) -> (r: Option
 fn vx_extend_zeros(buf: &mut Vec<i32>, n: usize)
     ensures (*final(buf))@ == (*old(buf))@ + Seq::new(n as nat, |i: int| 0i32),
 { unimplemented!() }
+
+// `o` is the item `k` of the result of applying `delta` to `from`: the update data added (wrapping) to the base item,
+// or the update data itself when the base has no such item
+spec fn patched(from: &RawSnap, delta: &Delta, o: Seq<i32>, k: i32) -> bool {
+    let d = delta.update_data(k);
+    &&& o.len() == d.len()
+    &&& (from.offsets@.contains_key(k) ==> forall|j: int| 0 <= j < d.len() ==> o[j] == wadd(from.item_data(k)[j], d[j]))
+    &&& (!from.offsets@.contains_key(k) ==> o == d)
+}
